@@ -919,17 +919,16 @@ impl<'a> TypeEncoder<'a> {
     fn export_resource(&self, state: &mut State, name: &str, id: ResourceId) -> u32 {
         log::debug!("encoding export of resource `{name}`");
 
-        if let Some(existing) = state.current.resources.get(name) {
-            return *existing;
-        }
-
         let resource = &self.0[id];
         let index = if let Some(outer) = state.used_type_index(name) {
-            // This is an alias to an outer resource type
+            // This is an alias to an outer resource type; the same resource
+            // may be used under several names and each of them is exported
             let index =
                 Self::export_type(state, name, ComponentTypeRef::Type(TypeBounds::Eq(outer)));
             log::debug!("encoded outer alias for resource `{name}` as type index {index}");
             index
+        } else if let Some(existing) = state.current.resources.get(name) {
+            return *existing;
         } else if let Some(alias) = resource.alias {
             // This is an alias to another resource at the same scope
             let index = state.current.resources
